@@ -525,13 +525,13 @@ class Gen:
             self.t("return")
             if self.chance(3, 4):
                 self.exprlist(1, 3)
-            if self.chance(1, 6) and not self.avoid_known:
+            if self.chance(1, 6):      # (the last `;` is written since /repo eff5f53)
                 self.features.add("last-semicolon")
                 self.t(";")
         elif r == 1 and self.loop:
             self.features.add("break")
             self.t("break")
-            if self.chance(1, 6) and not self.avoid_known:
+            if self.chance(1, 6):      # (the last `;` is written since /repo eff5f53)
                 self.features.add("last-semicolon")
                 self.t(";")
         elif r == 2 and self.loop and self.luau:
